@@ -197,7 +197,8 @@ fn build_binary_op(
         let use_bounds = e.push_bounds_to(&mut wcb);
         let mut values = Vec::new();
         for field in fields {
-            let field_ty = &field.field.ty;
+            // In `impl ... for &T`, `Self` is not the type the field was declared in.
+            let field_ty = &expand_self(&field.field.ty, &this_ty);
             let lhs = with_ref(&member(quote!(self), field), lhs_is_ref);
             let rhs = with_ref(&member(quote!(__rhs), field), rhs_is_ref);
             let lhs_ty = with_ref(field_ty, lhs_is_ref);
@@ -206,6 +207,7 @@ fn build_binary_op(
             field.push_bounds_to(use_bounds, kind, &mut wcb);
         }
         let ctor_args = build_ctor_args(&item.fields, &values);
+        wcb.expand_self_in_types(&this_ty);
         let wheres = wcb.build(|ty| match (lhs_is_ref, rhs_is_ref) {
             (true, true) => quote!(for<'__a> &'__a #ty : #trait_<&'__a #ty, Output = #ty>),
             (true, false) => quote!(for<'__a> &'__a #ty : #trait_<#ty, Output = #ty>),
@@ -296,13 +298,15 @@ fn build_unary_op(
         let use_bounds = e.push_bounds_to(&mut wcb);
         let mut values = Vec::new();
         for field in fields {
-            let field_ty = &field.field.ty;
+            // In `impl ... for &T`, `Self` is not the type the field was declared in.
+            let field_ty = &expand_self(&field.field.ty, &this_ty);
             let lhs = with_ref(&member(quote!(self), field), lhs_is_ref);
             let lhs_ty = with_ref(field_ty, lhs_is_ref);
             values.push(quote!(<#lhs_ty as #trait_>::#func_name(#lhs)));
             field.push_bounds_to(use_bounds, kind, &mut wcb);
         }
         let ctor_args = build_ctor_args(&item.fields, &values);
+        wcb.expand_self_in_types(&this_ty);
         let wheres = wcb.build(|ty| match lhs_is_ref {
             true => quote!(for<'__a> &'__a #ty : #trait_<Output = #ty>),
             false => quote!(#ty : #trait_<Output = #ty>),
